@@ -163,6 +163,11 @@ func c07Extras() (out []c07Rule) {
 		{false, "~script,~image,~media,~font"}, {false, "script,stylesheet,object,image,xmlhttprequest,media,font,websocket,ping,other"},
 		{false, "first-party"}, {false, "~match-case"}, {false, "third-party,match-case,important,popup"},
 		{false, "all"}, {false, "subdocument,~third-party"}, {true, "document,important,domain=e.org,ctag=a,client=a,denyallow=a.com,dnstype=A"},
+		// LONG value lists (each list still counts as ONE modifier, whatever its length)
+		{false, "domain=" + strings.Join(nWideValues(70, nil), "|")}, {false, "domain=~" + strings.Join(nWideValues(130, nil), "|~")},
+		{false, "ctag=" + strings.Join(nWideValues(40, poolTags), "|")}, {false, "denyallow=" + strings.Join(nWideValues(65, nil), "|")},
+		{false, "dnstype=" + strings.Join(nWideValues(33, poolDNSTypes), "|")}, {true, "client=" + strings.Join(nWideValues(20, nil), "|") + ",important"},
+		{true, "domain=" + strings.Join(nWideValues(100, nil), "|") + ",ctag=" + strings.Join(nWideValues(17, poolTags), "|")},
 	} {
 		pat := c07Patterns[len(out)%len(c07Patterns)]
 		f, err := rules.NewNetworkRule(c07TextP(pat, t.exc, strings.Split(t.mods, ",")), 1)
@@ -511,7 +516,7 @@ func genC07Laws(r *rng, n int, w *bufio.Writer) {
 		ns = 200000
 	}
 	for i := 0; i < ns/10+1; i++ {
-		k := 1 + r.n(7)
+		k := nCount(r, 1+r.n(7), 10, 8, 600) // candidates: 1..7 mostly, 1 list in 10 log-scale up to 600
 		cand := make([]c07Rule, k)
 		for j := range cand {
 			cand[j] = pick(r, all)
